@@ -151,19 +151,27 @@ Proof.
 Qed.
 
 (* the loop only appends, and a break with found_end carries a closing statement *)
-Lemma block_loop_shape b classes start_idx k : forall st s content had fe s',
-  start_idx < length (l_content st) \/ b_end b = None \/ True ->
+Definition loop_spec (b : bspec) (start_idx : nat) (f : lst -> M lout) : Prop :=
+  forall st s content had fe s',
   Forall WN (l_content st) ->
-  block_loop T rec b classes start_idx k st s = (Val (LBreak content had fe), s') ->
+  f st s = (Val (LBreak content had fe), s') ->
   exists extra, content = l_content st ++ extra /\ Forall WN content /\
     (fe = true ->
      exists pre last, content = pre ++ [last] /\ mem (tcls last) (b_endall b) = true /\
        (start_idx < length (l_content st) -> end_ok b (startinfo_of content start_idx) last)).
+
+Lemma block_step_shape b start_idx cont lc :
+  loop_spec b start_idx cont -> loop_spec b start_idx (block_step T rec b start_idx cont lc).
 Proof.
-  induction k as [|k IH]; intros st s content had fe s' _ W; cbn [block_loop]; [discriminate|].
-  destruct (nth_error classes (l_i st)) as [lc|].
-  2:{ intros H. inversion H; subst. exists []. rewrite app_nil_r. split; [reflexivity|].
-      split; [exact W|discriminate]. }
+  intros HC0 st s content had fe s' W.
+  assert (HC : forall st s content had fe s', True -> Forall WN (l_content st) ->
+             cont st s = (Val (LBreak content had fe), s') ->
+             exists extra, content = l_content st ++ extra /\ Forall WN content /\
+               (fe = true ->
+                exists pre last, content = pre ++ [last] /\ mem (tcls last) (b_endall b) = true /\
+                  (start_idx < length (l_content st) -> end_ok b (startinfo_of content start_idx) last)))
+    by (intros; eapply HC0; eauto).
+  unfold block_step.
   set (startinfo := match nth_error (l_content st) start_idx with Some t => tinfo t | None => noinfo end).
   unfold bind at 1.
   match goal with |- context [(if b_do_hook b then ?X else ?Y) s] =>
@@ -175,7 +183,7 @@ Proof.
       destruct (c_has_start_label (entry T (tcls t0))); [|discriminate].
       destruct (oN_eqb (start_label startinfo) (start_label (tinfo t0))); [|discriminate].
       inversion HK; subst. eapply call_shape; eauto. }
-    intros H. apply IH in H; cbn [l_content] in *; [|now right; right|apply Forall_app; split; [exact W|now constructor]].
+    intros H. apply HC in H; cbn [l_content] in *; [|exact I|apply Forall_app; split; [exact W|now constructor]].
     destruct H as [extra [E [W2 F]]]. exists (t :: extra). split; [rewrite E, <- app_assoc; reflexivity|].
     split; [exact W2|]. intros Hfe. destruct (F Hfe) as [pre [lst [E2 [M2 F2]]]].
     exists pre, lst. split; [exact E2|]. split; [exact M2|]. intros Hlt. apply F2. rewrite app_length. lia.
@@ -190,7 +198,7 @@ Proof.
         [discriminate|].
       destruct ((match b_end b with Some _ => mem (tcls t) (b_endall b) | None => false end)
                 && b_match_labels b && negb (oN_eqb (start_label startinfo) (end_label (tinfo t)))) eqn:LB.
-      { intros H. apply IH in H; cbn [l_content] in *; [|now right; right|exact Wc].
+      { intros H. apply HC in H; cbn [l_content] in *; [|exact I|exact Wc].
         destruct H as [extra [E [W2 F]]]. exists (t :: extra). split; [rewrite E, <- app_assoc; reflexivity|].
         split; [exact W2|]. intros Hfe. destruct (F Hfe) as [pre [lst [E2 [M2 F2]]]].
         exists pre, lst. split; [exact E2|]. split; [exact M2|]. intros Hlt. apply F2. rewrite app_length. lia. }
@@ -207,11 +215,32 @@ Proof.
         rewrite SI. unfold end_ok. split; [exact IE'|]. split.
         - intros ML. rewrite ML in LB. cbn in LB. now apply negb_false_iff in LB.
         - intros MN. rewrite MN in NC. exact NC. }
-      intros H. apply IH in H; cbn [l_content] in *; [|now right; right|exact Wc].
+      intros H. apply HC in H; cbn [l_content] in *; [|exact I|exact Wc].
       destruct H as [extra [E [W2 F]]]. exists (t :: extra). split; [rewrite E, <- app_assoc; reflexivity|].
       split; [exact W2|]. intros Hfe. destruct (F Hfe) as [pre [lst [E2 [M2 F2]]]].
       exists pre, lst. split; [exact E2|]. split; [exact M2|]. intros Hlt. apply F2. rewrite app_length. lia.
-    + intros H. apply IH in H; cbn [l_content] in *; [|now right; right|exact W]. exact H.
+    + intros H. apply HC in H; cbn [l_content] in *; [|exact I|exact W]. exact H.
+Qed.
+
+Lemma block_loop_shape b classes start_idx k : loop_spec b start_idx (block_loop T rec b classes start_idx k).
+Proof.
+  induction k as [|k IH]; intros st s content had fe s' W; cbn [block_loop]; [discriminate|].
+  destruct (nth_error classes (l_i st)) as [lc|].
+  2:{ intros H. inversion H; subst. exists []. rewrite app_nil_r. split; [reflexivity|].
+      split; [exact W|discriminate]. }
+  unfold bind at 1. destruct (hook_cid T rec b (l_content st) s) as [[cm|e] s1] eqn:HCID; [|discriminate].
+  assert (CM : exists extra, cm = l_content st ++ extra /\ Forall WN extra).
+  { unfold hook_cid in HCID. destruct (b_do_hook b).
+    - destruct (add_cid_shape _ _ _ _ _ HCID) as [extra [E [Wx _]]]. eauto.
+    - inversion HCID; subst. exists []. rewrite app_nil_r. auto. }
+  destruct CM as [extra [-> Wx]].
+  intros H. apply (block_step_shape b start_idx _ lc IH) in H; cbn [l_content] in *;
+    [|apply Forall_app; split; assumption].
+  destruct H as [ex2 [E [W2 F]]]. exists (extra ++ ex2). split; [rewrite E, app_assoc; reflexivity|].
+  split; [exact W2|].
+  intros Hfe. destruct (F Hfe) as [pre [lst [E2 [M2 F2]]]]. exists pre, lst.
+  split; [exact E2|]. split; [exact M2|].
+  intros Hlt. apply F2. rewrite app_length. lia.
 Qed.
 
 Lemma startinfo_app content extra idx : idx < length content ->
@@ -231,7 +260,7 @@ Proof.
   set (cl := block_classes T b s).
   destruct (block_loop T rec b cl start_idx (loop_bound (length cl) s)
               (mkLst content 0 false (b_if_hook b) (b_where_hook b)) s) as [[[content' had fe|]|e] s1] eqn:BL.
-  - apply block_loop_shape in BL; cbn [l_content] in *; [|now right; right|exact W].
+  - apply block_loop_shape in BL; cbn [l_content] in *; [|exact W].
     destruct BL as [extra [E [W2 F]]].
     unfold bind at 1. destruct ((match tn with Some _ => do_exit_scope | None => ret tt end) s1) as [[[]|e] s2];
       [|discriminate].
